@@ -43,6 +43,8 @@ class ResultRequestUploadIqProtocolEntity(ResultIqProtocolEntity):
                 mediaNode["resume"] = str(self.resumeOffset)
         else:
             mediaNode = ProtocolTreeNode("duplicate", {"url": self.url})
+            if self.ip:
+                mediaNode["ip"] = self.ip
 
         node.addChild(mediaNode)
         return node
